@@ -52,6 +52,7 @@ def cases(rng, tier):
             ("shrink", G.gen_shrink)]
     valid = family_cases(rng, fams, n // 4, faults=0.6)
     valid += family_cases(rng, [("nested-frames", G.gen_nested_frames), ("selfshift", G.gen_selfshift), ("cascade", G.gen_cascade)], n // 8, faults=0.3)
+    valid += family_cases(rng, [("deep-args", G.gen_deep_args)], 3 if tier == "quick" else 20, faults=0.0)
     for c in valid:
         c.pop("want_ok", None); c.pop("want_err", None)
     cs += valid
